@@ -282,7 +282,7 @@ pub fn run(cfg: &Cfg) -> i32 {
         names.push(format!("rand/{sh}"));
         jobs.push(Box::new(move |w: &mut dyn Write| {
             let mut rep = Report::default();
-            rand_job(seed, cases, &mut rep);
+            chunked(seed, cases, 500, &mut rep, |s, n, r| rand_job(s, n, r));
             rep.emit(w);
         }));
     }
